@@ -75,19 +75,19 @@ Variable meth : method.
 Notation KI := (kops_of (QI rt) meth).
 
 Lemma KI_upd_below va vb md sa sb sx :
-  k_ltb KI va (k_max KI) = true -> k_ltb KI vb (k_max KI) = true -> k_ltb KI md (k_max KI) = true ->
-  k_ltb KI (k_upd KI va vb md sa sb sx) (k_max KI) = true.
+  k_ltb KI va (k_inf KI) = true -> k_ltb KI vb (k_inf KI) = true -> k_ltb KI md (k_inf KI) = true ->
+  k_ltb KI (k_upd KI va vb md sa sb sx) (k_inf KI) = true.
 Proof.
-  cbn [kops_of k_ltb k_max k_upd QI f_ltb f_max]. intros Ha Hb Hm.
+  cbn [kops_of k_ltb k_inf k_upd QI f_ltb f_inf]. intros Ha Hb Hm.
   destruct (below_none _ Ha) as (qa & ->). destruct (below_none _ Hb) as (qb & ->). destruct (below_none _ Hm) as (qm & ->).
   rewrite upd_QI. reflexivity.
 Qed.
 
 Lemma squares_some (mq : list Q) :
-  Forall (fun v => k_ltb KI v (k_max KI) = true) (square_all KI (map Some mq)).
+  Forall (fun v => k_ltb KI v (k_inf KI) = true) (square_all KI (map Some mq)).
 Proof.
   apply Forall_forall. intros v Hv. unfold square_all in Hv. rewrite map_map in Hv. apply in_map_iff in Hv.
-  destruct Hv as (q & <- & _). cbn [kops_of k_sq k_ltb k_max QI f_ltb f_max f_mul]. destruct (on_squares meth); reflexivity.
+  destruct Hv as (q & <- & _). cbn [kops_of k_sq k_ltb k_inf QI f_ltb f_inf f_mul]. destruct (on_squares meth); reflexivity.
 Qed.
 
 (* all seven methods: generic is total and returns well-formed dendrograms *)
